@@ -266,6 +266,11 @@ impl Threads {
 // free-running stress with a timestamped history
 
 static STOP: AtomicBool = AtomicBool::new(false);
+/// set by the watchdog when nothing has moved for a while: spinning readers then sleep between two gets. The index's shard
+/// lock is a reader-preferring spin lock; on a machine with more runnable threads than cores a reader can be descheduled
+/// while it holds the lock and the others keep taking it, so a writer may get nowhere for seconds without anything being
+/// deadlocked. A deadlock stays one when the readers step back; starvation ends.
+static RELAX: AtomicBool = AtomicBool::new(false);
 
 /// value written by (thread, seq): 8 identifying bytes + padding
 fn stress_value(tid: u64, seq: u64, size: usize) -> Vec<u8> {
@@ -431,6 +436,9 @@ pub fn stress(h: &Handle, kv: &HashMap<String, u64>, hang_ms: u64) -> String {
                             std::hint::spin_loop();
                         }
                     }
+                    if RELAX.load(Ordering::Relaxed) {
+                        std::thread::sleep(Duration::from_millis(1));
+                    }
                     let keep = match &res {
                         R::Val(Ok(v)) => {
                             let changed = last_rec.as_ref() != Some(v);
@@ -537,6 +545,7 @@ pub fn stress(h: &Handle, kv: &HashMap<String, u64>, hang_ms: u64) -> String {
     let total = (writers + readers) * ops;
     let mut last = (0u64, Instant::now());
     let mut hung = false;
+    RELAX.store(false, Ordering::SeqCst);
     loop {
         let p = progress.load(Ordering::SeqCst);
         if p >= total {
@@ -545,12 +554,18 @@ pub fn stress(h: &Handle, kv: &HashMap<String, u64>, hang_ms: u64) -> String {
         if p != last.0 {
             last = (p, Instant::now());
         } else if last.1.elapsed() > Duration::from_millis(hang_ms) {
-            hung = true;
-            break;
+            if !RELAX.swap(true, Ordering::SeqCst) {
+                // first expiry: make the spinning readers step back and wait once more
+                last = (p, Instant::now());
+            } else {
+                hung = true;
+                break;
+            }
         }
         std::thread::sleep(Duration::from_millis(5));
     }
     STOP.store(true, Ordering::SeqCst);
+    RELAX.store(false, Ordering::SeqCst);
     if hung {
         let done = hist.lock().unwrap().join(";");
         return format!("HANG after {} of {} ops;{}", progress.load(Ordering::SeqCst), total, done);
